@@ -223,24 +223,59 @@ def _strip_str(prog, fn, os_, depth=0):
     return out
 
 
+def _closure_arg(prog, fn, t, b):
+    """closure Fn objects passed (directly) as arguments of call t"""
+    out = []
+    for a in t["args"][1:]:
+        for o in origins(prog, fn, a, at=b):
+            if o.kind == "agg" and o.data.get("agg") == "closure" and o.data.get("closure") in prog.fns:
+                out.append(prog.fns[o.data["closure"]])
+    return out
+
+
+def _chain_to(prog, fn, op, at, through, stop):
+    """Follow the receiver chain of iterator / collection adaptors named in `through` from operand `op` until stop(origin)
+    holds for every leaf; True if so."""
+    todo = [(o, 0) for o in leaf_origins(prog, fn, op, at=at, terminal_only=True)]
+    if not todo:
+        return False
+    while todo:
+        o, d = todo.pop()
+        if stop(o):
+            continue
+        if o.kind == "call" and cname(o.data) in through and o.data.get("args") and d < 10:
+            nxt = leaf_origins(prog, fn, o.data["args"][0], at=o.block, terminal_only=True)
+            if not nxt:
+                return False
+            todo.extend((x, d + 1) for x in nxt)
+            continue
+        return False
+    return True
+
+
 def check_bulk_indexed(ctx, prog, fn, name, sites):
+    """bulk_get / bulk_delete: number the input with enumerate(), visit every (index, key) once (in any order), call the
+    element operation with the element's key, record (the element's index, its result), restore the input order by
+    sorting on the index, return the result components.  Loop and iterator spellings are interchangeable."""
     elem = "get" if name == "bulk_get" else "delete"
     ok = len(sites) == 1 and in_cycle(fn, sites[0][0])
     if not ctx.check(ok, "bulk-by-index", name + ":one-element-call-in-loop", "%s does not call self.%s exactly once inside its loop" % (name, elem), where=where(fn)):
         return
     b, t = sites[0]
-    pops = [(bb, tt) for bb, tt in fn.calls() if (tt.get("callee") or "").endswith("Vec::<T, A>::pop")]
-    pushes = [(bb, tt) for bb, tt in fn.calls() if (tt.get("callee") or "").endswith("Vec::<T, A>::push")]
-    sorts = [(bb, tt) for bb, tt in fn.calls() if cname(tt) in ("sort_by", "sort_unstable_by", "sort_by_key", "sort", "sort_unstable")]
-    ctx.check(len(pops) == 1 and len(pushes) == 1, "bulk-by-index", name + ":worklist", "%s: expected one pop and one push" % name, where=where(fn))
-    if len(pops) != 1 or len(pushes) != 1:
-        return
-    pb = pops[0][0]
-    # element call's key is the popped element's key
+    # one element per round: `vec.pop()` or the `next()` of an iterator over the work list; one push per round
+    srcs = [(bb, tt) for bb, tt in fn.calls() if (tt.get("callee") or "").endswith(("Vec::<T, A>::pop", "Iterator::next")) and in_cycle(fn, bb) and not fn.is_cleanup(bb)]
     k = origins(prog, fn, t["args"][1], at=b)
+    srcs = [(bb, tt) for bb, tt in srcs if any(x.kind == "call" and x.block == bb for x in k)] if len(srcs) > 1 else srcs
+    pushes = [(bb, tt) for bb, tt in fn.calls() if (tt.get("callee") or "").endswith("Vec::<T, A>::push") and not fn.is_cleanup(bb)]
+    sorts = [(bb, tt) for bb, tt in fn.calls() if cname(tt) in ("sort_by", "sort_unstable_by", "sort_by_key", "sort_unstable_by_key", "sort", "sort_unstable")]
+    ctx.check(len(srcs) == 1 and len(pushes) == 1, "bulk-by-index", name + ":worklist", "%s: expected one element drawn from the work list and one push per round" % name, where=where(fn))
+    if len(srcs) != 1 or len(pushes) != 1:
+        return
+    pb = srcs[0][0]
+    # element call's key is the drawn element's key
     ctx.check(bool(k) and all(x.kind == "call" and x.block == pb and x.proj and x.proj[-1] == "f:1" for x in k), "bulk-by-index", name + ":element-key",
-              "%s does not look up the key of the element it popped (%s)" % (name, k), where=where(fn, b))
-    # pushed pair = (popped index, element result)
+              "%s does not look up the key of the element it drew from the work list (%s)" % (name, k), where=where(fn, b))
+    # pushed pair = (drawn index, element result)
     ps = origins(prog, fn, pushes[0][1]["args"][1], at=pushes[0][0])
     good = False
     for x in ps:
@@ -251,21 +286,24 @@ def check_bulk_indexed(ctx, prog, fn, name, sites):
                 and bool(v0) and all(y.kind == "call" and y.block == b and y.proj[:1] == ("?ok",) for y in v0)
     ctx.check(good, "bulk-by-index", name + ":pair", "%s does not record (index of the element, result of self.%s for it)" % (name, elem), where=where(fn, pushes[0][0]))
     # the work list comes from enumerate() over the input
-    wl = leaf_origins(prog, fn, pops[0][1]["args"][0], at=pb, terminal_only=True)
     en = [(bb, tt) for bb, tt in fn.calls() if cname(tt) == "enumerate"]
     ok = len(en) == 1
     if ok:
-        src = leaf_origins(prog, fn, en[0][1]["args"][0], at=en[0][0], terminal_only=True)
-        src = [y for y in src]
-        ok = any(y.kind == "call" and cname(y.data) == "iter" for y in src) or any(y.kind == "param" and y.data == 2 for y in src)
-    mapcl = [c for c in prog.closures_of(fn) if c.name == "{closure}" and c.id.endswith("{closure#0}")]
-    if ok and mapcl:
-        r = tracer(prog, mapcl[0]).place({"l": 0, "p": []})
-        ok = any(x.kind == "agg" and x.data.get("agg") == "tuple" for x in r)
-        for x in r:
-            if x.kind == "agg" and x.data.get("agg") == "tuple":
-                a = origins(prog, mapcl[0], x.data["ops"][0], at=x.block)
-                ok = ok and bool(a) and all(y.kind == "param" and y.proj == ("f:0",) for y in a)
+        ok = _chain_to(prog, fn, en[0][1]["args"][0], en[0][0], {"iter", "into_iter", "copied", "cloned", "deref", "as_ref", "as_slice"},
+                       lambda o: (o.kind == "param" and o.data == 2) or (o.kind == "call" and cname(o.data) == "iter"))
+        # a `.map(|(i, x)| (i, ..))` behind enumerate keeps the index component
+        for bb, tt in fn.calls():
+            if cname(tt) != "map" or not (tt.get("callee") or "").startswith("core::iter::"):
+                continue
+            if not _chain_to(prog, fn, tt["args"][0], bb, set(), lambda o: o.kind == "call" and o.block == en[0][0]):
+                continue
+            for c in _closure_arg(prog, fn, tt, bb):
+                r = tracer(prog, c).place({"l": 0, "p": []})
+                ok = ok and any(x.kind == "agg" and x.data.get("agg") == "tuple" for x in r)
+                for x in r:
+                    if x.kind == "agg" and x.data.get("agg") == "tuple":
+                        a = origins(prog, c, x.data["ops"][0], at=x.block)
+                        ok = ok and bool(a) and all(y.kind == "param" and y.proj == ("f:0",) for y in a)
     ctx.check(ok, "bulk-by-index", name + ":indices-from-enumerate", "%s does not number the input elements with enumerate()" % name, where=where(fn))
     # the result list is sorted by index, after the loop, before projection
     res_sorts = []
@@ -276,21 +314,27 @@ def check_bulk_indexed(ctx, prog, fn, name, sites):
             res_sorts.append((sb, st))
     ok = len(res_sorts) == 1 and not in_cycle(fn, res_sorts[0][0]) and res_sorts[0][0] in fn.reachable(fn.normal_succs(pushes[0][0]))
     if ok:
-        # comparator closure: Ord::cmp(&a.0, &b.0)
-        cl = None
-        for a in res_sorts[0][1]["args"][1:]:
-            for o in origins(prog, fn, a, at=res_sorts[0][0]):
-                if o.kind == "agg" and o.data.get("agg") == "closure":
-                    cl = prog.fns.get(o.data["closure"])
-        ok = cl is not None
-        if ok:
-            cm = [(bb, tt) for bb, tt in cl.calls() if (tt.get("callee") or "") == "core::cmp::Ord::cmp"]
-            ok = len(cm) == 1
-            if ok:
-                a0 = leaf_origins(prog, cl, cm[0][1]["args"][0], at=cm[0][0], terminal_only=True)
-                a1 = leaf_origins(prog, cl, cm[0][1]["args"][1], at=cm[0][0], terminal_only=True)
-                ok = bool(a0) and bool(a1) and all(y.kind == "param" and y.data == 2 and y.proj == ("f:0",) for y in a0) \
-                    and all(y.kind == "param" and y.data == 3 and y.proj == ("f:0",) for y in a1)
+        sb, st = res_sorts[0]
+        how = cname(st)
+        if how in ("sort", "sort_unstable"):
+            ok = True           # (index, result) tuples order by their first component; indices are distinct
+        else:
+            cls = _closure_arg(prog, fn, st, sb)
+            ok = len(cls) == 1
+            if ok and how in ("sort_by", "sort_unstable_by"):
+                # comparator closure: Ord::cmp(&a.0, &b.0)
+                cl = cls[0]
+                cm = [(bb, tt) for bb, tt in cl.calls() if (tt.get("callee") or "") == "core::cmp::Ord::cmp"]
+                ok = len(cm) == 1
+                if ok:
+                    a0 = leaf_origins(prog, cl, cm[0][1]["args"][0], at=cm[0][0], terminal_only=True)
+                    a1 = leaf_origins(prog, cl, cm[0][1]["args"][1], at=cm[0][0], terminal_only=True)
+                    ok = bool(a0) and bool(a1) and all(y.kind == "param" and y.data == 2 and y.proj == ("f:0",) for y in a0) \
+                        and all(y.kind == "param" and y.data == 3 and y.proj == ("f:0",) for y in a1)
+            elif ok:
+                # key closure: |a| a.0
+                r = tracer(prog, cls[0]).place({"l": 0, "p": []})
+                ok = bool(r) and all(y.kind == "param" and y.data == 2 and y.proj == ("f:0",) for y in r)
     ctx.check(ok, "bulk-by-index", name + ":restored-by-index",
               "%s does not sort its (index, result) list ascending by the index component after the loop: results would be returned in key order, not in the order of the input" % name, where=where(fn))
     # returned vector is the projection of component 1
